@@ -245,8 +245,8 @@ func WalkPaths(fn *ssa.Function, maxPaths int) ([]PathSummary, string) {
 				}
 				if g := x.Common().StaticCallee(); g != nil && inlineable(g) && effectFree(g) {
 					// a value helper extracted later (inline.go): its result is the expression it computes
-					if rt, ok := singleReturnTerm(g); ok {
-						f.env[x] = substParams(rt, as)
+					if rt, ok := singleReturnTerm(g, as, x); ok {
+						f.env[x] = rt
 						continue
 					}
 				}
@@ -398,21 +398,8 @@ func pathCondAtom(base *Termer, v ssa.Value, T func(ssa.Value) string) (string, 
 			return a, !p
 		}
 	case *ssa.BinOp:
-		a, b := T(x.X), T(x.Y)
-		switch x.Op {
-		case token.EQL, token.NEQ:
-			if a > b {
-				a, b = b, a
-			}
-			return "(" + a + " == " + b + ")", x.Op == token.EQL
-		case token.LSS:
-			return "(" + a + " < " + b + ")", true
-		case token.GTR:
-			return "(" + b + " < " + a + ")", true
-		case token.LEQ:
-			return "(" + b + " < " + a + ")", false
-		case token.GEQ:
-			return "(" + a + " < " + b + ")", false
+		if a, pol, ok := cmpAtom(x, T(x.X), T(x.Y)); ok {
+			return a, pol
 		}
 	}
 	return T(v), true
